@@ -3,6 +3,7 @@ import inspect
 
 from vmon.probe import shard_rng, observe
 from vmon.refs import b58 as RB, bech32 as R32, ec as REC, keytext as KT
+from vmon.gen import nets as NETS
 
 PROPERTY = "C18"
 LEVEL = "exploration"
@@ -37,7 +38,7 @@ TIMEOUT = {"quick": 900, "thorough": 3 * 3600}
 
 N = KT.N
 P_FIELD = KT.P
-SKIP_EXPECTED = ("GRS", "GRSRT", "TGRS")
+SKIP_EXPECTED = NETS.SKIP_EXPECTED
 
 ADDRESS_EPS = ("p2pkh", "p2sh", "p2pkh_segwit", "p2sh_segwit", "p2tr", "address")
 ADDR_KINDS = KT.B58_ADDR_KINDS + KT.SEGWIT_KINDS
@@ -109,42 +110,12 @@ def entry_points(parse_obj):
     return sorted(eps)
 
 
-def params_of(net):
-    p = net.parse
-    g = lambda a: getattr(p, a, None)
-    kw = dict(symbol=net.symbol, p2pkh=g("_address_prefix"), p2sh=g("_pay_to_script_prefix"), wif=g("_wif_prefix"),
-              hrp=g("_bech32_hrp"), sec_prefix=g("_sec_prefix"))
-    for k in KT.BIP_KINDS:
-        kw[k] = g("_%s_prefix" % k)
-    return KT.Params(**kw)
-
-
-def usable_networks():
-    """-> (list of (symbol, network)), skipped {symbol: reason})."""
-    from pycoin.networks.registry import network_codes, network_for_netcode
-    import contextlib
-    import io
-    good, skipped = [], {}
-    for code in sorted(set(network_codes())):
-        try:
-            net = network_for_netcode(code)
-            with contextlib.redirect_stdout(io.StringIO()):
-                net.keys.private(1).wif()
-                net.keys.private(1).address()
-            good.append((code, net))
-        except ImportError as e:
-            skipped[code] = "ImportError: %s" % str(e)[:80]
-        except Exception as e:      # noqa
-            skipped[code] = "%s: %s" % (type(e).__name__, str(e)[:80])
-    return good, skipped
+params_of = NETS.params_of
+usable_networks = NETS.usable_networks
 
 
 def configurations(tier):
-    try:
-        good, skipped = usable_networks()
-        return ["networks exercised: " + " ".join(c for c, _ in good), "networks skipped: %s" % skipped]
-    except Exception as e:      # noqa
-        return ["could not enumerate networks: %r" % e]
+    return NETS.configurations()
 
 
 def make_ctx(sym, net):
@@ -373,6 +344,15 @@ def judge(ctx, ep, text, A, rec, must=None, expect=None, deep=False):
         mech = diagnose(ep, A, text) or "total.%s.%s" % (ep, type(v).__name__)
         rec.violation(mech, case_of(ctx, ep, text, must, expect), v, "an object or None")
         return
+    if ep in PURE and A.kinds:
+        mine = PURE[ep]
+        if not A.ok(mine):
+            if A.bad(mine):
+                rec.ev("refusal.judged")                       # own prefix, invalid payload -> must be None
+                if A.ok(KT.ALL_KINDS):
+                    rec.ev("kindsep.shared_prefix_judged")     # ... and the text is a valid object of another kind
+            elif A.ok(KT.ALL_KINDS):
+                rec.ev("kindsep.other_kind_judged")            # valid text of another checksummed kind -> must be None
     if v is None:
         if must:
             mech = "sec.as_text_not_parsed" if must == "sec_text" else "valid.%s_not_parsed_by.%s" % (must, ep)
@@ -539,8 +519,10 @@ def b58_workload(ctx, rng, scale):
                 which = fills
             elif L in boundary:
                 which = (fills[(L + pi) % 3], "rnd")
-            else:
+            elif (L <= 40 and ((L + pi) % 3 == 0 or kind in ("p2pkh", "p2sh", "wif"))) or (L > 40 and (L + pi) % 5 == 0):
                 which = (fills[(L + pi) % 4],)
+            else:
+                which = ()
             for f in which:
                 reps = 1 if (f != "rnd" or scale == 1) else 3
                 for _ in range(reps):
@@ -554,6 +536,13 @@ def b58_workload(ctx, rng, scale):
             if not (junk + prefix).startswith(prefix):
                 out.append(("b58.%s.prefix_shifted" % kind, RB.encode_check(junk + prefix + body[:-1])))
             out.append(("b58.%s.prefix_at_end" % kind, RB.encode_check(body + prefix)))
+        if kind in KT.BIP_KINDS:
+            # a well-formed node under foreign version bytes whose chain code happens to contain this network's version bytes
+            pos = rng.randrange(0, 29)
+            chain = rbytes(rng, pos) + prefix + rbytes(rng, 32 - pos - len(prefix))
+            key = (b"\x00" + rng.randrange(1, N).to_bytes(32, "big")) if kind.endswith("prv") else KT.sec_of(KT.pubpoint(rng.randrange(1, N)))
+            foreign = bytes([prefix[0] ^ 0x55]) + prefix[1:]
+            out.append(("b58.%s.prefix_inside" % kind, RB.encode_check(foreign + b"\x00" + bytes(4) + bytes(4) + chain[:32] + key)))
         # right payload, checksum of another network style (4 zero bytes) / truncated checksum
         good = prefix + structured_bodies(kind, rng)[-1]
         out.append(("b58.%s.bad_checksum" % kind, RB.encode(good + b"\0\0\0\0")))
@@ -810,12 +799,7 @@ def run_shard(spec, rec):
     import contextlib
     import io
     good, skipped = usable_networks()
-    for s in skipped:
-        rec.note("network %s skipped: %s" % (s, skipped[s]))
-    unexpected = [s for s in skipped if s not in SKIP_EXPECTED]
-    if unexpected or len(good) < 40:
-        rec.require("all_registered_networks_usable")      # never counted -> INCONCLUSIVE
-        rec.note("unexpectedly unusable networks: %s (usable: %d)" % (unexpected, len(good)))
+    NETS.require_registry(rec, good, skipped)
     mine = good[spec["slice"]::spec["of"]]
     for sym, net in mine:
         ctx = make_ctx(sym, net)
@@ -825,7 +809,10 @@ def run_shard(spec, rec):
         with contextlib.redirect_stdout(io.StringIO()):
             run_network(ctx, spec, rec)
     if mine:
-        rec.require("reserialise.wif", "reserialise.hwif", "reserialise.address", "reserialise.as_text", "faithful.ok")
+        rec.require("reserialise.wif", "reserialise.hwif", "reserialise.address", "reserialise.as_text", "faithful.ok",
+                    "refusal.judged", "kindsep.other_kind_judged")
+        if any(sym in ("POLIS", "CHC") for sym, _ in mine):
+            rec.require("kindsep.shared_prefix_judged")
 
 
 def replay_case(case, rec):
